@@ -352,8 +352,7 @@ CLAIMS = {
                   '+ correspondence; the state model applyDiff is proved equal to TreeTag.apply_diff translated from the '
                   'source statement by statement on every run (gen_apply_diff_is_model, gen_apply_diff_is_click); the codec '
                   'functions regenerated from the source on every run (statement-by-statement translator, equality with the '
-                  'hand-written model proved)',
-                  'source statement by statement on every run (gen_apply_diff_is_model, gen_apply_diff_is_click); likewise '
+                  'hand-written model proved); likewise '
                   'tpStateLevel = depthList (gen_state_level_is_model, gen_state_level_default; pathsList_le_depth, '
                   'depthList_attained) and tpValuesIds = allIdsList / expandAllState (gen_values_ids_is_model, '
                   'gen_values_ids_is_expand_all)',
